@@ -213,8 +213,11 @@ def evaluate__map_merge(self: XPathFunction, context: ta.ContextType = None) -> 
         return [*(v1 if isinstance(v1, list) else [v1]), *(v2 if isinstance(v2, list) else [v2])]
 
     items: dict[Any, Any] = {}  # keyed like the dictionary of a map: see dict_key()
-    for map_ in self[0].select(context):
-        assert isinstance(map_, XPathMap)
+    maps = list(self[0].select(context))
+    if any(not isinstance(map_, XPathMap) for map_ in maps):
+        raise self.error('XPTY0004', 'the first argument must be a sequence of maps')
+
+    for map_ in maps:
         for k1, v in map_.items(context):
             d1 = dict_key(k1)
             # Speed up for certain key types or float values
